@@ -80,7 +80,11 @@ def write_errors_to_yaml(container, yaml_doc):
                 else:
                     _yaml_section[-1]["matrix"] = _err_obj.cov_mat  # .tolist()
             elif _mtype == "correlation":
-                _yaml_section[-1]["matrix"] = _err_obj.cor_mat  # .tolist()
+                # the correlation matrix as declared: for a relative error that of the relative covariance matrix
+                # (the absolute one carries the signs of the reference values and vanishes where they are zero)
+                _declared_cov_mat = _err_obj.cov_mat_rel if _is_relative else _err_obj.cov_mat
+                _declared_err = np.sqrt(np.diag(_declared_cov_mat))
+                _yaml_section[-1]["matrix"] = _declared_cov_mat / np.outer(_declared_err, _declared_err)
                 _yaml_section[-1]["error_value"] = _err_val
             else:
                 raise TypeError("Unknown error matrix type '{}'. " "Valid: 'correlation' or 'covariance'.")
